@@ -46,7 +46,7 @@ def check(prog, res, tier):
         # candidate invariant for string accumulators of the packer: len <= 999
         if it.stack and it.stack[-1] == pfi.short:
             for k, g in gen.items():
-                if isinstance(g, SeqV) and g.kind == 'str' and k[0] == 'local':
+                if isinstance(g, SeqV) and g.kind == 'str' and k[0] in ('local', 'ljoin'):
                     it.store.assume_ge0(Lin.const(CAP) - g.length())
                     it.user.setdefault('inv_vars', set()).add(k)
 
@@ -58,14 +58,24 @@ def check(prog, res, tier):
     hooks['loop_head'] = loop_head
     runs = Runs(prog, entry, hooks=hooks, res=res)
 
+    acc_keys = {}
+
     def appended_part(p, s0, s1):
         """(accumulator key, list of segments appended in this iteration)"""
         inv = p.interp.user.get('inv_vars')
+        if inv:
+            acc_keys.setdefault('v', set()).update(inv)
+        elif p.interp.an.mode == 'unroll':
+            # unrolled paths have no generalised loop head: use the accumulators recognised on the inductive paths
+            if 'v' not in acc_keys:
+                for q in runs.inv:
+                    acc_keys.setdefault('v', set()).update(q.interp.user.get('inv_vars') or ())
+            inv = acc_keys.get('v') or None
         for k in s0:
             a, b = s0.get(k), s1.get(k)
             if inv and k not in inv:
                 continue
-            if k[0] == 'local' and isinstance(a, SeqV) and isinstance(b, SeqV) and a.kind == 'str' and a is not b \
+            if k[0] in ('local', 'ljoin') and isinstance(a, SeqV) and isinstance(b, SeqV) and a.kind == 'str' and a is not b \
                     and len(b.segs) >= 3 and isinstance(b.segs[-1], Sl) and b.segs[-1].src.name.startswith('pds_value'):
                 return k, a, b
         for k in s0:
@@ -73,6 +83,25 @@ def check(prog, res, tier):
             if inv and k in inv and isinstance(a, SeqV) and isinstance(b, SeqV):
                 return k, a, b
         return None, None, None
+
+    def carrier_appends(p, lo=None, hi=None):
+        """list.append events that hand over a carrier: appends to a list that is itself the text accumulator (a list of
+        sub-elements joined at the flush) are part of the accumulation, not hand-overs"""
+        if 'v' not in acc_keys:
+            for q in runs.inv:
+                acc_keys.setdefault('v', set()).update(q.interp.user.get('inv_vars') or ())
+        names = {k[1] for k in acc_keys.get('v', ()) if k[0] == 'ljoin'}
+        out = []
+        for e in p.events:
+            if e.kind != 'list-append' or not e.under(pfi.short):
+                continue
+            if lo is not None and not (lo < e.seq < hi):
+                continue
+            tgt = e.node.func.value if isinstance(e.node, ast.Call) and isinstance(e.node.func, ast.Attribute) else None
+            if isinstance(tgt, ast.Name) and tgt.id in names:
+                continue
+            out.append(e)
+        return out
 
     # ---- C12.a sub-element layout  + invariant
     def chk_a(p, mode):
@@ -127,8 +156,8 @@ def check(prog, res, tier):
                 if b is not None:
                     fails += need_ge0(st, Lin.const(CAP) - b.length(), f'a carrier string may grow to {st.canon(b.length())} '
                                                                         f'characters, more than {CAP}')
-        for e in p.events:
-            if e.kind == 'list-append' and e.under(pfi.short):
+        for e in carrier_appends(p):
+            if True:
                 v = e.data['value']
                 if not isinstance(v, SeqV):
                     fails.append(definite(f'a non-string carrier {v!r} is produced', e.node))
@@ -145,7 +174,7 @@ def check(prog, res, tier):
         an iteration boundary, and what follows starts with a complete sub-element."""
         fails = []
         for first, last, s0, s1, head in iterations(p, func=pfi.short):
-            apps = [e for e in p.events if e.kind == 'list-append' and e.under(pfi.short) and first < e.seq < last]
+            apps = carrier_appends(p, first, last)
             k, a, b = appended_part(p, s0, s1)
             if k is None:
                 continue
